@@ -1229,6 +1229,11 @@ func (x *Exec) execSelect(st *State, s *ast.SelectStmt, label string) *flow {
 				}
 			case *ast.ExprStmt:
 				// <-ch
+				if ue, ok := unparen(cm.X).(*ast.UnaryExpr); ok && ue.Op == token.ARROW {
+					if c := x.recvContract(ue.X); c != nil {
+						x.applyRecv(cst, ue.X, c, false, cm.Pos())
+					}
+				}
 			case *ast.SendStmt:
 				x.ev(cst, cm.Value)
 			}
